@@ -413,7 +413,9 @@ func runTypedMonitor(w *ndWriter, p typedPkg, seed int64) {
 	set := func(name string) {
 		srv.Set(p.mk(metav1.ObjectMeta{Namespace: ns, Name: name, Labels: map[string]string{"x": fmt.Sprint(rng.Intn(3))}}))
 	}
-	set("a")
+	if rng.Intn(2) == 0 {
+		set("a") // otherwise the monitor is initialised with an empty listing - it still has to be initialised
+	}
 	res := reflect.ValueOf(p.build).Call([]reflect.Value{reflect.ValueOf(ctx), reflect.ValueOf(log), reflect.ValueOf(client.Client(srv))})
 	if err := errOf(res[1]); err != nil {
 		return
